@@ -177,6 +177,17 @@ func (c *SpecCtx) eval(x Expr) TV {
 		return c.index(n)
 	case *ESlice:
 		v := c.eval(n.X)
+		if sc, isStr := v.V.(Sc); isStr && sc.T.Sort == SStr {
+			lo := intLit(0)
+			if n.Lo != nil {
+				lo = c.asInt(c.eval(n.Lo))
+			}
+			hi := app(SInt, "s.len", sc.T)
+			if n.Hi != nil {
+				hi = c.asInt(c.eval(n.Hi))
+			}
+			return TV{Sc{app(SStr, "s.sub", sc.T, lo, hi)}, types.Typ[types.String]}
+		}
 		sv, ok := v.V.(SliceV)
 		if !ok {
 			c.fail("slice expression on non-slice")
@@ -785,6 +796,20 @@ func (c *SpecCtx) call(n *ECall) TV {
 		}
 		k := c.e.mapKey(c.eval(n.Args[1]).V, mi.kt)
 		return TV{Sc{sel(c.e.mapDom(c.heap, mi, a.V.(Sc).T), k)}, mathBool}
+	case "nth": // nth(tuple, i): component of a multi-valued pure call
+		a := c.eval(n.Args[0])
+		tv, ok := a.V.(TupleV)
+		k, ok2 := n.Args[1].(*EInt)
+		if !ok || !ok2 {
+			c.fail("nth(tuple, literal) expected")
+		}
+		var idx int
+		fmt.Sscan(k.V, &idx)
+		tt, _ := a.T.(*types.Tuple)
+		if idx < 0 || idx >= len(tv.E) || tt == nil {
+			c.fail("nth: index out of range")
+		}
+		return TV{tv.E[idx], tt.At(idx).Type()}
 	case "cat": // string concatenation
 		as := evalArgs()
 		return TV{Sc{app(SStr, "s.cat", as[0].V.(Sc).T, as[1].V.(Sc).T)}, types.Typ[types.String]}
@@ -964,6 +989,7 @@ func (c *SpecCtx) pureCall(fn *types.Func, args []TV) TV {
 		if !fc.Pure {
 			c.fail("%s has a contract but is not declared pure", key)
 		}
+		heapDep = !fc.ValuePure
 	} else if k, ok := defaultExternKind(key); ok && (k == "pure" || k == "hpure") {
 		heapDep = k == "hpure"
 	} else {
